@@ -16,10 +16,7 @@ Record sim_modes : Prop := {
   sm_store : forall v, goodo (store_red m1 v) -> store_red m2 v = store_red m1 v;
   sm_truthy : forall v, goodo (truthy m1 v) -> truthy m2 v = truthy m1 v;
   sm_or : forall v, goodo (or_step m1 v) -> or_step m2 v = or_step m1 v;
-  sm_last : forall b v, goodo (last_red b m1 v) -> last_red b m2 v = last_red b m1 v;
   sm_short : goodo (short_args m1) -> short_args m2 = short_args m1;
-  sm_neg : forall n, goodo (neg_count m1 n) -> neg_count m2 n = neg_count m1 n;
-  sm_atom : goodo (do_test_atom m1) -> do_test_atom m2 = do_test_atom m1;
   sm_loc : forall fs sc x, goodo (locate_m m1 fs sc x) -> locate_m m2 fs sc x = locate_m m1 fs sc x
 }.
 Hypothesis SM : sim_modes.
@@ -69,10 +66,7 @@ Ltac rw_lead :=
   | G : goodo (store_red m1 ?v) |- _ => rewrite (sm_store SM _ G); clear G
   | G : goodo (truthy m1 ?v) |- _ => rewrite (sm_truthy SM _ G); clear G
   | G : goodo (or_step m1 ?v) |- _ => rewrite (sm_or SM _ G); clear G
-  | G : goodo (last_red ?b m1 ?v) |- _ => rewrite (sm_last SM _ _ G); clear G
   | G : goodo (short_args m1) |- _ => rewrite (sm_short SM G); clear G
-  | G : goodo (neg_count m1 ?n) |- _ => rewrite (sm_neg SM _ G); clear G
-  | G : goodo (do_test_atom m1) |- _ => rewrite (sm_atom SM G); clear G
   | G : goodo (locate_m m1 ?fs ?sc ?x) |- _ => rewrite (sm_loc SM _ _ _ G); clear G
   end.
 Ltac case_lead :=
@@ -123,27 +117,13 @@ Proof.
 Qed.
 Ltac rw_test := idtac; match goal with G : good (ev_test m1 ev1 _ _ _) |- _ => rewrite (ev_test_sim _ _ _ G); clear G end.
 
-Lemma ev_progn_sim : forall es st sc, good (ev_progn m1 ev1 st sc es) -> ev_progn m2 ev2 st sc es = ev_progn m1 ev1 st sc es.
-Proof.
-  induction es as [|e es IH]; intros st sc H; [reflexivity|].
-  destruct es as [|e' es'].
-  - simpl in *. step noop. apply pair_sim; [apply (sm_last SM)|assumption].
-  - change (ev_progn m1 ev1 st sc (e :: e' :: es')) with
-      (bind (ev1 st sc e) (fun v st1 => bindo (arg_red m1 v) st1 (fun _ => ev_progn m1 ev1 st1 sc (e' :: es')))) in *.
-    change (ev_progn m2 ev2 st sc (e :: e' :: es')) with
-      (bind (ev2 st sc e) (fun v st1 => bindo (arg_red m2 v) st1 (fun _ => ev_progn m2 ev2 st1 sc (e' :: es')))).
-    step noop. try (step noop). apply IH; assumption.
-Qed.
-
-Ltac rw_progn := idtac; match goal with G : good (ev_progn m1 ev1 _ _ _) |- _ => rewrite (ev_progn_sim _ _ _ G); clear G end.
-
 Lemma ev_cond_sim : forall cls st sc, good (ev_cond m1 ev1 st sc cls) -> ev_cond m2 ev2 st sc cls = ev_cond m1 ev1 st sc cls.
 Proof.
   induction cls as [|[c body] cls IH]; intros st sc H; simpl in *; [reflexivity|].
-  step noop. try (step noop).
-  dif.
+  step noop. unfold truthy in *; simpl in *.
+  match goal with |- context[if ?b then _ else _] => destruct b end.
   - destruct body.
-    + apply pair_sim; [apply (sm_last SM)|assumption].
+    + reflexivity.
     + apply ev_seq_sim; assumption.
   - apply IH; assumption.
 Qed.
@@ -169,7 +149,7 @@ Proof.
       (bind (ev1 st sc e) (fun v st1 => bindo (or_step m1 v) st1 (fun o => match o with Some r => (Ok r, st1) | None => ev_or m1 ev1 st1 sc (e' :: es') end))) in *.
     change (ev_or m2 ev2 st sc (e :: e' :: es')) with
       (bind (ev2 st sc e) (fun v st1 => bindo (or_step m2 v) st1 (fun o => match o with Some r => (Ok r, st1) | None => ev_or m2 ev2 st1 sc (e' :: es') end))).
-    step noop. try (step noop). dopt; [reflexivity | apply IH; assumption].
+    step noop. unfold or_step in *. simpl in *. destruct (is_nil (primary a)); [|reflexivity]. apply (IH s sc). exact K.
 Qed.
 
 Lemma ev_letstar_sim : forall bs es st sc, good (ev_letstar m1 ev1 st sc bs es) -> ev_letstar m2 ev2 st sc bs es = ev_letstar m1 ev1 st sc bs es.
@@ -188,7 +168,7 @@ Ltac rw_assign := idtac; match goal with G : good (assign m1 _ _ _ _) |- _ => re
 Lemma ev_setq_sim : forall ps st sc last, good (ev_setq m1 ev1 st sc ps last) -> ev_setq m2 ev2 st sc ps last = ev_setq m1 ev1 st sc ps last.
 Proof.
   induction ps as [|[x e] ps IH]; intros st sc last H; simpl in *; [reflexivity|].
-  step noop. try (step noop). step rw_assign. step noop. apply IH; assumption.
+  step noop. try (step noop). step rw_assign. apply IH; assumption.
 Qed.
 
 Lemma apply_fn_sim : forall st c args, good (apply_fn m1 ev1 st c args) -> apply_fn m2 ev2 st c args = apply_fn m1 ev1 st c args.
@@ -204,7 +184,7 @@ Ltac rw_apply := idtac; match goal with G : good (apply_fn m1 ev1 _ _ _) |- _ =>
 Lemma ev_map_sim : forall rows st c, good (ev_map m1 ev1 st c rows) -> ev_map m2 ev2 st c rows = ev_map m1 ev1 st c rows.
 Proof.
   induction rows as [|row rows IH]; intros st c H; simpl in *; [reflexivity|].
-  step rw_apply. step noop.
+  step rw_apply.
   step ltac:(idtac; match goal with G : good (ev_map _ _ _ _ _) |- _ => rewrite (IH _ _ G); clear G end).
   reflexivity.
 Qed.
@@ -218,9 +198,9 @@ Qed.
 Lemma ev_opt_sim : forall st sc r, good (ev_opt ev1 st sc r) -> ev_opt ev2 st sc r = ev_opt ev1 st sc r.
 Proof. intros st sc [e|] H; simpl in *; [apply Hev; assumption|reflexivity]. Qed.
 
-Lemma ev_inits_seq_sim : forall bs st sc f, good (ev_inits_seq m1 ev1 st sc f bs) -> ev_inits_seq m2 ev2 st sc f bs = ev_inits_seq m1 ev1 st sc f bs.
+Lemma ev_inits_seq_sim : forall bs st sc, good (ev_inits_seq m1 ev1 st sc bs) -> ev_inits_seq m2 ev2 st sc bs = ev_inits_seq m1 ev1 st sc bs.
 Proof.
-  induction bs as [|[[x e] s0] bs IH]; intros st sc f H; simpl in *; [reflexivity|].
+  induction bs as [|[[x e] s0] bs IH]; intros st sc H; simpl in *; [reflexivity|].
   step noop. try (step noop). apply IH; assumption.
 Qed.
 
@@ -232,25 +212,25 @@ Proof.
   reflexivity.
 Qed.
 
-Lemma ev_steps_seq_sim : forall bs st sc f, good (ev_steps_seq m1 ev1 st sc f bs) -> ev_steps_seq m2 ev2 st sc f bs = ev_steps_seq m1 ev1 st sc f bs.
+Lemma ev_steps_seq_sim : forall bs st sc fs, good (ev_steps_seq m1 ev1 st sc fs bs) -> ev_steps_seq m2 ev2 st sc fs bs = ev_steps_seq m1 ev1 st sc fs bs.
 Proof.
-  induction bs as [|[[x e] [s0|]] bs IH]; intros st sc f H; simpl in *; [reflexivity| |apply IH; assumption].
+  induction bs as [|[[x e] [s0|]] bs IH]; intros st sc [|f fs] H; simpl in *; try reflexivity; [|apply IH; assumption].
   step noop. try (step noop). apply IH; assumption.
 Qed.
 
 Ltac rw_map := idtac; match goal with G : good (ev_map m1 ev1 _ _ _) |- _ => rewrite (ev_map_sim _ _ _ G); clear G end.
 Ltac rw_iter := idtac; match goal with G : good (ev_iter ev1 _ _ _ _ _ _) |- _ => rewrite (ev_iter_sim _ _ _ _ _ _ G); clear G end.
-Ltac rw_inits_seq := idtac; match goal with G : good (ev_inits_seq m1 ev1 _ _ _ _) |- _ => rewrite (ev_inits_seq_sim _ _ _ _ G); clear G end.
+Ltac rw_inits_seq := idtac; match goal with G : good (ev_inits_seq m1 ev1 _ _ _) |- _ => rewrite (ev_inits_seq_sim _ _ _ G); clear G end.
 Ltac rw_steps_par := idtac; match goal with G : good (ev_steps_par m1 ev1 _ _ _) |- _ => rewrite (ev_steps_par_sim _ _ _ G); clear G end.
 Ltac rw_steps_seq := idtac; match goal with G : good (ev_steps_seq m1 ev1 _ _ _ _) |- _ => rewrite (ev_steps_seq_sim _ _ _ _ G); clear G end.
 Ltac rw_any := first [rw_seq|rw_args|rw_inits|rw_test|rw_assign|rw_apply|rw_map|rw_iter|rw_inits_seq|rw_steps_par|rw_steps_seq].
 Ltac step' := split_good; try (first [rw_lead | rw_any]); case_lead.
 Ltac fin := first
   [ reflexivity | assumption
-  | apply Hev; assumption | apply ev_seq_sim; assumption | apply ev_progn_sim; assumption | apply ev_cond_sim; assumption
+  | apply Hev; assumption | apply ev_seq_sim; assumption | apply ev_cond_sim; assumption
   | apply ev_and_sim; assumption | apply ev_or_sim; assumption | apply ev_letstar_sim; assumption
   | apply ev_setq_sim; assumption | apply apply_fn_sim; assumption | apply ev_opt_sim; assumption
-  | apply pair_sim; [apply (sm_last SM)|assumption] ].
+  ].
 Ltac pre :=
   match goal with
   | H : good (bindo (if ?b then _ else _) _ _) |- _ => destruct b eqn:?
@@ -277,18 +257,8 @@ Proof.
   - reflexivity.
   - intros v; destruct m; simpl; try reflexivity; destruct (is_values v) eqn:Hv; try congruence.
     destruct v; try discriminate; reflexivity.
-  - intros v; destruct m; simpl; try reflexivity.
-    + destruct (is_values v && is_nil (primary v)); congruence.
-    + destruct (is_values v) eqn:Hv; simpl.
-      * destruct (is_nil (primary v)) eqn:Hp; [congruence|]. intros _. destruct v; try discriminate. reflexivity.
-      * intros _. destruct v; try discriminate; reflexivity.
-  - intros v; destruct m; simpl; try reflexivity; destruct (is_values v) eqn:Hv; try congruence.
-    intros _; destruct v; try discriminate; reflexivity.
-  - intros b v; destruct m; simpl; try reflexivity; destruct (is_values v) eqn:Hv; try congruence; intros _.
-    + destruct b; [|reflexivity]. destruct v; try discriminate; reflexivity.
-    + destruct b; [reflexivity|]. destruct v; try discriminate; reflexivity.
-  - destruct m; simpl; congruence.
-  - intros n; unfold neg_count; destruct (n <? 0)%Z; destruct m; simpl; congruence.
+  - reflexivity.
+  - reflexivity.
   - destruct m; simpl; congruence.
   - intros fs sc x; destruct m; simpl; try reflexivity.
     + destruct (loc_eqb (locate false fs sc x) (locate true fs sc x)) eqn:Hl; [|congruence].
